@@ -165,6 +165,19 @@ func (s *SvSync) hashName(nodeId enc.Name) uint64 {
 }
 
 func (s *SvSync) onReceiveStateVector(sv *stlv.StateVector) {
+	// Notify the application only after the mutex is released: the callback
+	// may take locks of the application, and the application calls back into
+	// SvSync (IncrSeqNo, GetSeqNo, ...) while holding those. Delivering the
+	// updates with the mutex held deadlocks the two.
+	// This function is only called from the main loop, so the updates
+	// are still delivered one at a time and in order.
+	for _, update := range s.processStateVector(sv) {
+		s.onUpdate(update)
+	}
+}
+
+// Merges an incoming state vector. Returns the updates for the application.
+func (s *SvSync) processStateVector(sv *stlv.StateVector) (updates []SvSyncUpdate) {
 	s.mutex.Lock()
 	defer s.mutex.Unlock()
 
@@ -186,8 +199,8 @@ func (s *SvSync) onReceiveStateVector(sv *stlv.StateVector) {
 			// time for each updated node.
 			s.mtime[hash] = time.Now()
 
-			// Notify the application of the update
-			s.onUpdate(SvSyncUpdate{
+			// Notify the application of the update (once unlocked)
+			updates = append(updates, SvSyncUpdate{
 				NodeId: entry.NodeId,
 				High:   entry.SeqNo,
 				Low:    prev + 1,
@@ -243,6 +256,7 @@ func (s *SvSync) onReceiveStateVector(sv *stlv.StateVector) {
 	// [Spec] When entering Suppression State, reset
 	// the Sync Interest timer to SuppressionTimeout
 	s.ticker.Reset(s.getSuppressionTimeout())
+	return updates
 }
 
 func (s *SvSync) timerExpired() {
